@@ -193,12 +193,20 @@ def sys_wrappers():
          lambda x: A.ProcessXor(0x5a, A.Prefixed(A.Alias("Byte"), x)) if False else A.Prefixed(A.Alias("Byte"), A.ProcessXor(0x5a, x)),
          lambda x: A.Prefixed(A.Alias("Byte"), A.ProcessXor(b"\x01\x02\x03", x)), lambda x: A.Prefixed(A.Alias("Byte"), A.ProcessRotateLeft(3, 1, x)),
          lambda x: A.Prefixed(A.Alias("Byte"), A.NullStripped(x, pad=b"\xfd")),
+         # whole-byte and mixed rotations over groups wider than two bytes (the member padded to a multiple of the group)
+         lambda x: A.FixedSized(12, A.ProcessRotateLeft(24, 4, A.Padded(12, x))), lambda x: A.FixedSized(12, A.ProcessRotateLeft(8, 3, A.Padded(12, x))),
+         lambda x: A.FixedSized(12, A.ProcessRotateLeft(-13, 6, A.Padded(12, x))),
          ]
     return W
 
 def lookahead_wrappers():
     return [lambda x: A.Peek(x), lambda x: A.Pointer(0, x), lambda x: A.Pointer(2, x), lambda x: A.Struct(A.Renamed("p", A.Peek(x)), A.Renamed("v", x)),
             lambda x: A.Union(0, A.Renamed("u", x), A.Renamed("w", A.Alias("Byte"))), lambda x: A.Union(None, A.Renamed("u", x))]
+
+def lazy_wrappers():
+    "Lazy skips its member by the size Construct._actualsize reports (Prefixed and PrefixedArray read their prefix for it)"
+    return [lambda x: A.N("Lazy", sub=x), lambda x: A.N("Lazy", sub=A.Prefixed(A.Alias("Byte"), x)), lambda x: A.N("Lazy", sub=A.Prefixed(A.Alias("Int16ub"), x, incl=True)),
+            lambda x: A.N("Lazy", sub=A.PrefixedArray(A.Alias("Byte"), x)), lambda x: A.N("Lazy", sub=A.Renamed("m", A.Prefixed(A.Alias("Byte"), x)))]
 
 def systematic(rng, frac=1.0, extra=()):
     """Struct(h: Bytes(hlen), x: W(L), t: Byte) for every wrapper W, leaf L and header length -- so that every class is met
